@@ -296,4 +296,123 @@ def r3_whitespace(ctx):
            "the filtering collect dominates hex::decode", loc=rd.loc(dec[0][0]))
 
 
-RULES = [("C16.R1", r1_totality), ("C16.R2", r2_agreement), ("C16.R3", r3_whitespace)]
+class Lin:
+    """Symbolic evaluation of usize expressions to linear forms over the named locals `offset` and `task_id_bits`."""
+
+    def __init__(self, body):
+        self.b = body
+        self.defs = {}
+        for s in body.sites():
+            st = body.at(s)
+            if st.get("k") in ("assign", "call") and "dst" in st and not st["dst"].get("p"):
+                self.defs.setdefault(st["dst"]["l"], []).append(st)
+
+    @staticmethod
+    def add(a, b):
+        if a is None or b is None:
+            return None
+        out = dict(a)
+        for k, v in b.items():
+            out[k] = out.get(k, 0) + v
+        return out
+
+    def op(self, o, depth=0):
+        if depth > 25:
+            return None
+        if o.get("k") == "const":
+            return {"const": o["ev"]} if "ev" in o else None
+        pl = o["pl"]
+        return self.place(pl, depth)
+
+    def place(self, pl, depth):
+        l = pl["l"]
+        name = self.b.local_name(l)
+        if name == "offset" and not pl.get("p"):
+            return {"offset": 1}
+        if name == "task_id_bits" and not pl.get("p"):
+            return {"bits": 1}
+        ds = self.defs.get(l, [])
+        if len(ds) != 1:
+            return None
+        st = ds[0]
+        if st.get("k") == "call":
+            names = self.b.callees_of_call(st, passed=False)
+            if any(n.endswith("::checked_add") or n.endswith("::wrapping_add") or n.endswith("::saturating_add") for n in names):
+                return self.add(self.op(st["args"][0], depth + 1), self.op(st["args"][1], depth + 1))
+            if any(n.endswith("Try::branch") or n.endswith("Try>::branch") for n in names):
+                return self.op(st["args"][0], depth + 1)
+            return None
+        rv = st["rv"]
+        if rv["k"] in ("use", "cast"):
+            return self.op(rv["ops"][0], depth + 1)
+        if rv["k"] == "binop" and rv.get("op") in ("Add", "AddWithOverflow", "AddUnchecked"):
+            return self.add(self.op(rv["ops"][0], depth + 1), self.op(rv["ops"][1], depth + 1))
+        return None
+
+
+def _canon(f):
+    return tuple(sorted((k, v) for k, v in (f or {}).items() if v)) if f is not None else None
+
+
+def r4_layout(ctx):
+    """Writer and reader advance the bit cursor by the same amount per step kind and address the same bit range for a task id."""
+    prog = ctx.prog
+    rd = ctx.body(ROOT, "C16.R4")
+    wr = ctx.body(WRITER, "C16.R4")
+    STEP = "shuttle_engine::scheduler::ScheduleStep"
+
+    def strides(body, arm_of):
+        lin = Lin(body)
+        out = {}
+        off = [i for i, l in enumerate(body.locals) if l.get("name") == "offset"]
+        if not off:
+            return out
+        for s, st in body.assigns():
+            if st["dst"]["l"] != off[0] or st["dst"].get("p"):
+                continue
+            f = lin.op(st["rv"]["ops"][0]) if st["rv"]["k"] == "use" else None
+            if f == {"const": 0}:
+                continue          # initialisation
+            arm = arm_of(body, s)
+            out.setdefault(arm, set()).add(_canon(f))
+        return out
+
+    def reader_arm(body, s):
+        best = None
+        for x, st in body.assigns():
+            if st["rv"]["k"] == "aggr" and st["rv"].get("ak") == "adt" and norm(st["rv"]["adt"]) == STEP and body.site_dominates(x, s):
+                if best is None or body.site_dominates(best[0], x):
+                    best = (x, st["rv"]["variant"])
+        return best[1] if best else "?"
+
+    def writer_arm(body, s):
+        best = None
+        for x, t in body.calls():
+            if any(c.endswith("BitSlice::set") for c in body.callees_of_call(t, passed=False)) and body.site_dominates(x, s):
+                v = [a.get("ev") for a in t["args"] if a.get("k") == "const" and a.get("ty") == "bool"]
+                if v and (best is None or body.site_dominates(best[0], x)):
+                    best = (x, "Random" if v[0] else "Task")
+        return best[1] if best else "?"
+
+    rs = strides(rd, reader_arm)
+    ws = strides(wr, writer_arm)
+    want = {"Task": {_canon({"offset": 1, "bits": 1, "const": 1})}, "Random": {_canon({"offset": 1, "const": 1})}}
+    ctx.ob("C16.R4", "reader-stride", rs == want, "reader advances the bit cursor by 1+bits after a task step and by 1 after a random step: %s" % {k: sorted(v) for k, v in rs.items()}, loc=rd.loc())
+    ctx.ob("C16.R4", "writer-stride", ws == want, "writer advances the bit cursor by 1+bits after a task step and by 1 after a random step: %s" % {k: sorted(v) for k, v in ws.items()}, loc=wr.loc())
+    ctx.ob("C16.R4", "strides-agree", rs == ws and bool(rs), "writer and reader use the same stride per step kind", loc=rd.loc())
+
+    def ranges(body):
+        lin = Lin(body)
+        out = set()
+        for s, st in body.assigns():
+            rv = st["rv"]
+            if rv["k"] == "aggr" and rv.get("ak") == "adt" and norm(rv["adt"]) == "core::ops::range::Range":
+                out.add((_canon(lin.op(rv["ops"][0])), _canon(lin.op(rv["ops"][1]))))
+        return out
+    rr, wrr = ranges(rd), ranges(wr)
+    want_r = {(_canon({"offset": 1, "const": 1}), _canon({"offset": 1, "bits": 1, "const": 1}))}
+    ctx.ob("C16.R4", "id-bit-range-agrees", rr == want_r and want_r <= wrr,
+           "the task id occupies bits [offset+1, offset+1+bits) on both sides: reader %s, writer %s" % (sorted(rr), sorted(wrr)), loc=rd.loc())
+
+
+RULES = [("C16.R4", r4_layout), ("C16.R1", r1_totality), ("C16.R2", r2_agreement), ("C16.R3", r3_whitespace)]
